@@ -144,7 +144,7 @@ class Check:
                     break
         return ok_any, path, " | ".join(infos)
 
-    def finish(self, validate_batches=None, both_modes=False):
+    def finish(self, validate_batches=None, both_modes=False, validate_jit_only=False):
         from . import core
 
         lines = []
@@ -154,7 +154,7 @@ class Check:
         for tag, batch in (validate_batches or {}).items():
             if not batch:
                 continue
-            for jit in ([False] if (self.tier == "quick" and not both_modes) else [False, True]):
+            for jit in ([True] if validate_jit_only else ([False] if (self.tier == "quick" and not both_modes) else [False, True])):
                 try:
                     rc, out = run_validate(batch, jit, self.scratch, f"{self.pid}-{tag}-{int(jit)}")
                 except subprocess.TimeoutExpired:
